@@ -123,6 +123,7 @@ func (r *rewriter) selectStmt(s *ast.SelectStmt) ast.Stmt {
 			continue
 		}
 		var pre ast.Stmt
+		selv := ast.NewIdent("_vsel")
 		switch comm := cc.Comm.(type) {
 		case *ast.ExprStmt: // children were rewritten: x.Send(v) or x.Recv()
 			g, ok := r.genCall(comm.X)
@@ -132,10 +133,10 @@ func (r *rewriter) selectStmt(s *ast.SelectStmt) ast.Stmt {
 			}
 			if g.kind == "send" {
 				cases = append(cases, method(g.ch, "SendCase"))
-				pre = &ast.ExprStmt{X: method(g.ch, "SelSend", g.val)}
+				pre = &ast.ExprStmt{X: call(sel("vsched", "SelSend"), g.ch, selv, g.val)}
 			} else {
 				cases = append(cases, method(g.ch, "RecvCase"))
-				pre = &ast.ExprStmt{X: method(g.ch, "SelRecv")}
+				pre = &ast.ExprStmt{X: call(sel("vsched", "SelRecv"), g.ch, selv)}
 			}
 		case *ast.AssignStmt:
 			g, ok := r.genCall(comm.Rhs[0])
@@ -148,7 +149,7 @@ func (r *rewriter) selectStmt(s *ast.SelectStmt) ast.Stmt {
 			if len(lhs) == 1 {
 				lhs = []ast.Expr{lhs[0], ast.NewIdent("_")}
 			}
-			pre = &ast.AssignStmt{Lhs: lhs, Tok: comm.Tok, Rhs: []ast.Expr{method(g.ch, "SelRecv")}}
+			pre = &ast.AssignStmt{Lhs: lhs, Tok: comm.Tok, Rhs: []ast.Expr{call(sel("vsched", "SelRecv"), g.ch, selv)}}
 		default:
 			r.err = fmt.Errorf("unsupported select case %T", comm)
 			return s
@@ -159,7 +160,10 @@ func (r *rewriter) selectStmt(s *ast.SelectStmt) ast.Stmt {
 	}
 	args := []ast.Expr{ast.NewIdent(strconv.FormatBool(hasDef))}
 	args = append(args, cases...)
-	return &ast.SwitchStmt{Tag: call(sel("vsched", "Select"), args...), Body: &ast.BlockStmt{List: clauses}}
+	return &ast.SwitchStmt{
+		Init: &ast.AssignStmt{Lhs: []ast.Expr{ast.NewIdent("_vsel")}, Tok: token.DEFINE, Rhs: []ast.Expr{call(sel("vsched", "Select"), args...)}},
+		Tag:  &ast.SelectorExpr{X: ast.NewIdent("_vsel"), Sel: ast.NewIdent("I")},
+		Body: &ast.BlockStmt{List: clauses}}
 }
 
 func (r *rewriter) goStmt(g *ast.GoStmt) ast.Stmt {
